@@ -69,9 +69,29 @@ def read_results(path):
 
 PANIC_RE = re.compile(r'^(panic: .*|fatal error: .*)$', re.M)
 
+def harness_panic(stderr):
+    """True when the innermost non-runtime frame of the panicking goroutine is simulator code and the
+    panic is not one of the simulator's deliberate guards ("sim: ..."): a bug in /verif, never a violation."""
+    m = PANIC_RE.search(stderr)
+    if not m or 'sim:' in m.group(1):
+        return False
+    tail = stderr[m.end():m.end() + 6000]
+    g = re.search(r'^goroutine \d+ \[running[^\]]*\]:\n((?:.+\n)+?)\n', tail, re.M)
+    blk = g.group(1) if g else tail
+    for fm in re.finditer(r'^(\S[^\n]*)\(.*\)\n\t(\S+)', blk, re.M):
+        fn, loc = fm.group(1), fm.group(2)
+        if fn.startswith(('runtime.', 'testing.', 'panic', 'internal/', 'reflect.', 'sync.', 'bufio.', 'bytes.', 'strings.', 'fmt.', 'io.', 'encoding/', 'context.', 'net/', 'sort.', 'os.', 'time.')) or '/go1.' in loc or '/golang.org/' in loc:
+            continue
+        where = fn + ' ' + loc
+        # generated code of the corpora is the generator's product, not simulator code
+        return '/zzverif/' in where and '/corpus' not in where and '/fam/' not in where
+    return False
+
 def crash_signature(prop, stderr):
     """Root-cause class of a process death: panic text + first frame inside the repo (outside zzverif)."""
     if 'WATCHDOG' in stderr and not PANIC_RE.search(stderr):
+        return None
+    if harness_panic(stderr):
         return None
     m = PANIC_RE.search(stderr)
     msg = m.group(1) if m else 'process died'
@@ -220,7 +240,7 @@ class Batch:
                 break
             sig = crash_signature(self.prop, err)
             if sig is None:
-                self.infra.append('worker watchdog at run %d: %s' % (pend[0], err[-800:]))
+                self.infra.append(('simulator code panicked (a bug in /verif, not a violation) at run %d: %s' if harness_panic(err) else 'worker watchdog at run %d: %s') % (pend[0], tail_of_crash(err)[:1200] if harness_panic(err) else err[-800:]))
             else:
                 self.crashes.append((pend[0], sig, err))
             cur = pend[0] + 1
